@@ -71,8 +71,16 @@ UNREFLECTABLE = ["CLOB", "BINARY", "VARBINARY", "DOUBLE_PRECISION", "UUID"]
 REFLECTABLE = [f for f in CATALOGUE if f not in UNREFLECTABLE]
 
 
+COLLATABLE = {"String": T.String, "Unicode": T.Unicode, "Text": T.Text, "UnicodeText": T.UnicodeText, "VARCHAR": T.VARCHAR}
+COLLATIONS = ["NOCASE", "BINARY", "RTRIM"]  # SQLite's built-in collating sequences
+
+
 def mk_type(ty):
-    return CATALOGUE[ty["fam"]][0](list(ty.get("args") or []))
+    args = list(ty.get("args") or [])
+    if ty.get("coll") and ty["fam"] in COLLATABLE:
+        # collation= is rendered as COLLATE "<name>" after the type; SQLite never reflects it
+        return COLLATABLE[ty["fam"]](*args[:1] if ty["fam"] not in ("Text", "UnicodeText") else (), collation=ty["coll"])
+    return CATALOGUE[ty["fam"]][0](args)
 
 
 def mk_default(d):
@@ -93,6 +101,11 @@ def build_metadata(schema):
             kw = {}
             if c.get("pk"):
                 kw["primary_key"] = True
+            if c.get("computed"):
+                # a generated column (SQLite reflects it); nullable is always stated explicitly
+                cols.append(sa.Column(c["name"], mk_type(c["ty"]), sa.Computed(c["computed"]["sql"], persisted=bool(c["computed"].get("persisted"))),
+                                      nullable=c["nullable"], **kw))
+                continue
             cols.append(
                 sa.Column(c["name"], mk_type(c["ty"]), nullable=c["nullable"], server_default=mk_default(c.get("default")), **kw)
             )
